@@ -41,7 +41,9 @@
 #include <xercesc/validators/DTD/DTDGrammar.hpp>
 #include <xercesc/validators/common/Grammar.hpp>
 #include <xercesc/validators/schema/SchemaGrammar.hpp>
+#include <xercesc/validators/schema/ComplexTypeInfo.hpp>
 #include <xercesc/validators/schema/SchemaSymbols.hpp>
+#include <xercesc/validators/schema/XercesGroupInfo.hpp>
 
 namespace c16 {
 using namespace xv;
@@ -605,6 +607,27 @@ inline std::string pool_dump(XMLGrammarPoolImpl* p, KindCount* kc) {
     XsDumper d; d.kc = kc;
     out += d.model(m);
     return out;
+}
+
+// Element-declaration ids (XMLElementDecl::fId) are pool-local handles that RefHash3KeysIdPool::put reassigns in load order; they are the
+// only field of a stream that legitimately changes between ser(A) and ser(deser(ser(A))).  Neutralise them (the pool is discarded afterwards).
+inline void neutralise_element_ids(XMLGrammarPoolImpl* p) {
+    RefHashTableOfEnumerator<Grammar> en = p->getGrammarEnumerator();
+    while (en.hasMoreElements()) {
+        Grammar& g = en.nextElement();
+        if (g.getGrammarType() != Grammar::SchemaGrammarType) continue;
+        SchemaGrammar* sg = (SchemaGrammar*)&g;
+        RefHash3KeysIdPoolEnumerator<SchemaElementDecl> ee = sg->getElemEnumerator();
+        while (ee.hasMoreElements()) ee.nextElement().setId(0);
+        if (sg->getComplexTypeRegistry()) {
+            RefHashTableOfEnumerator<ComplexTypeInfo> ce(sg->getComplexTypeRegistry(), false, XMLPlatformUtils::fgMemoryManager);
+            while (ce.hasMoreElements()) { ComplexTypeInfo& ct = ce.nextElement(); for (XMLSize_t i = 0; i < ct.elementCount(); i++) ct.elementAt(i)->setId(0); }
+        }
+        if (sg->getGroupInfoRegistry()) {
+            RefHashTableOfEnumerator<XercesGroupInfo> ge(sg->getGroupInfoRegistry(), false, XMLPlatformUtils::fgMemoryManager);
+            while (ge.hasMoreElements()) { XercesGroupInfo& gi = ge.nextElement(); for (XMLSize_t i = 0; i < gi.elementCount(); i++) gi.elementAt(i)->setId(0); }
+        }
+    }
 }
 
 inline std::string first_diff(const std::string& a, const std::string& b) {
